@@ -18,7 +18,7 @@ ASSUMPTIONS = [
     "stray files that do not have the <2>/<rest> layout are outside the property",
 ]
 MONITORS = "independent before/after os.walk listing of the store compared with a set-difference model; return value; byte snapshot of survivors"
-REQUIRED_COUNTERS = ["listings_from_store_of_other_md5_flavour", "unpacked_dirs_planted", "repeat_calls_in_one_process", "stale_listing_loaded_before_gc", "path_spelling/trailing-slash", "path_spelling/dotdot", "nfc_nfd_sibling_listings", "used_as/generator", "used_as/iterator", "gc_calls", "expanding_calls_with_used_dir", "dry_calls", "readonly_calls", "real_removals", "foreign_algo_ids_in_used"]
+REQUIRED_COUNTERS = ["file_objects_with_a_directory_twin", "collecting_handle_wrote_first", "listings_from_store_of_other_md5_flavour", "unpacked_dirs_planted", "repeat_calls_in_one_process", "stale_listing_loaded_before_gc", "path_spelling/trailing-slash", "path_spelling/dotdot", "nfc_nfd_sibling_listings", "used_as/generator", "used_as/iterator", "gc_calls", "expanding_calls_with_used_dir", "dry_calls", "readonly_calls", "real_removals", "foreign_algo_ids_in_used"]
 
 
 def _put(root, oid, data, mode):
@@ -82,6 +82,16 @@ def run_shard(ctx):
                     raw = canonical_dir_bytes(listing)
                     dirs[H("md5", raw) + DIR_SUFFIX] = (listing, raw)
             dirs_in_store = {o for o in dirs if rng.random() < 0.8}
+            twin_file = None
+            if dirs and algo == "md5" and rng.random() < 0.15:
+                # a plain file whose bytes happen to be a directory listing (someone added the listing as a file): its object X lives next to X.dir
+                do_ = rng.choice(sorted(dirs))
+                twin_file = do_[: -len(DIR_SUFFIX)]
+                file_oids[twin_file] = dirs[do_][1]
+                present_files.add(twin_file)
+                _put(root, twin_file, dirs[do_][1], mode)
+                dirs_in_store.add(do_)
+                res.count("file_objects_with_a_directory_twin")
             dirs_in_cache = {o for o in dirs if (o in dirs_in_store if not separate_cache else rng.random() < 0.7)}
             for o in dirs_in_store:
                 _put(root, o, dirs[o][1], mode)
@@ -127,6 +137,9 @@ def run_shard(ctx):
                     other = "sha256" if algo != "sha256" else "md5"
                     used.append(env.HI(other, o))  # same value under another algorithm: must not protect
                     res.count("foreign_algo_ids_in_used")
+            if twin_file is not None and rng.random() < 0.7:
+                used = [h for h in used if h.value not in (twin_file, twin_file + DIR_SUFFIX)] + [env.HI(algo, twin_file)]
+                used_dirs.discard(twin_file + DIR_SUFFIX)
             for _ in range(rng.randrange(0, 3)):
                 used.append(env.HI(algo, H("md5", rng.randbytes(8))))  # absent id
             rng.shuffle(used)
@@ -140,6 +153,28 @@ def run_shard(ctx):
             if spelling == "dotdot":
                 os.makedirs(os.path.join(pdir, "x"), exist_ok=True)
             odb = env.odb_of_class(cls, opened, hash_name=algo, **({"read_only": True} if read_only else {}))
+            if not read_only and cls != "remote" and rng.random() < 0.25:
+                # this handle has written to the store before (anything it memoised about the store's layout then is old news now):
+                # a further object arrives through it first, everything under other prefixes was put there by other hands
+                mine = gen.small_content(rng) + b"written-by-the-collecting-handle"
+                mp_ = os.path.join(d, "mine")
+                with open(mp_, "wb") as f:
+                    f.write(mine)
+                # (temporarily hide the rest of the store, so that the handle sees only its own prefix directory being created)
+                hidden = os.path.join(d, "store-hidden")
+                os.rename(root, hidden)
+                os.makedirs(root)
+                odb.add(mp_, env.localfs(), H(algo, mine))
+                mo_ = H(algo, mine)
+                for sub_ in os.listdir(hidden):
+                    src_, dst_ = os.path.join(hidden, sub_), os.path.join(root, sub_)
+                    if os.path.isdir(src_) and os.path.isdir(dst_):
+                        for f_ in os.listdir(src_):
+                            os.rename(os.path.join(src_, f_), os.path.join(dst_, f_))
+                    else:
+                        os.rename(src_, dst_)
+                file_oids[mo_] = mine
+                res.count("collecting_handle_wrote_first")
             # the listings may come from a store of the other md5 flavour (legacy store collected with the new cache at hand, or the reverse)
             calgo = algo
             if separate_cache and algo in ("md5", "md5-dos2unix") and rng.random() < 0.4:
